@@ -155,6 +155,9 @@ func genLayout(r *rand.Rand, class string) Layout {
 		archs = []Arch{{S: pick(r, stepChoices...), N: between(r, 1, 3)}}
 	case "prod":
 		archs = []Arch{{60, 1800}, {3600, 768}, {86400, 400}}
+	case "big":
+		// more than 5461 slots (64 KiB of slots) in one archive
+		archs = []Arch{{pick(r, int64(1), 1, 2), between(r, 5500, 12000)}}
 	case "page":
 		s0 := pick(r, int64(1), 1, 2, 10)
 		n0 := between(r, 342, 900)
